@@ -25,7 +25,9 @@ TRUSTED_BASE = [
     "well-formed BMP messages come from the repository's test encoders (rotonda::bgp::encode) via `vh bstream-render`; the UPDATE octets of the "
     "`RB` frames come from C04's proved encoder (oracle c04enc) and are read on the model side by C04's decoder (Pipe/PipeRaw.raw_upd)",
     "op G: the real RouterListApi / RouterInfoApi process_request and the metrics sources, wired to the connection's own maps, state machine and "
-    "metrics by StreamFixture::http_get_router_list / http_get_router_info (verif-hooks); each request in a task of its own (a panic = `panic`)",
+    "metrics by StreamFixture::http_get_router_list / http_get_router_info (verif-hooks); each request in a task of its own (a panic = `panic`); "
+    "every /metrics text is read by the harness's independent exposition-format reader (engines/promtext.rs): `m1` = well formed, and the text after "
+    "the session gives the `K:` token (router's unit series gone, connection_lost_count, bmp_num_connected_routers) - model: BmpStreamModel.unit_final",
     "modelled, not verified: src/units/bmp_tcp_in/{io.rs,router_handler.rs}; the state machine and the ingress register are the models of C05/C14; "
     "routecore's BMP/BGP parsers and tokio are exercised, never modelled: the parser is a parameter of the model and every theorem holds for every parser",
 ]
